@@ -57,11 +57,23 @@ func (m *MuxBroker) Accept(id uint32) (net.Conn, error) {
 	p := m.getStream(id)
 	select {
 	case c = <-p.ch:
+		// The entry is used up. Remove it here rather than leaving that to
+		// timeoutWait, which may not have run yet when the ID is used again:
+		// the next Accept would find this entry with doneCh already closed
+		// (and panic closing it again), the next dialled stream would be
+		// parked in it and never be picked up.
+		m.Lock()
+		if m.streams[id] == p {
+			delete(m.streams, id)
+		}
+		m.Unlock()
 		close(p.doneCh)
 	case <-time.After(5 * time.Second):
 		m.Lock()
 		defer m.Unlock()
-		delete(m.streams, id)
+		if m.streams[id] == p {
+			delete(m.streams, id)
+		}
 
 		return nil, fmt.Errorf("timeout waiting for accept")
 	}
@@ -198,8 +210,11 @@ func (m *MuxBroker) timeoutWait(id uint32, p *muxBrokerPending) {
 	m.Lock()
 	defer m.Unlock()
 
-	// Delete the stream so no one else can grab it
-	delete(m.streams, id)
+	// Delete the stream so no one else can grab it - unless the ID has been
+	// used again in the meantime and the entry under it is no longer ours.
+	if m.streams[id] == p {
+		delete(m.streams, id)
+	}
 
 	// If we timed out, then check if we have a channel in the buffer,
 	// and if so, close it.
